@@ -1423,11 +1423,92 @@ func ruleCountLoop(c *Ctx) {
 			if at == token.NoPos {
 				at = f.Pos()
 			}
+			if name == "plenccore.Skip" {
+				// Skip must fail on a count the data cannot hold: comparing the index
+				// with int(count) makes a count >= 2^63 negative, the loop does not run
+				// and a malformed field is "skipped" successfully
+				signed := false
+				for _, bd := range bounds {
+					if cv, ok := bd.(*ssa.Convert); ok {
+						if bt, ok := cv.Type().Underlying().(*types.Basic); ok && bt.Info()&types.IsUnsigned == 0 {
+							if st, ok := cv.X.Type().Underlying().(*types.Basic); ok && st.Info()&types.IsUnsigned != 0 {
+								signed = true
+							}
+						}
+					}
+				}
+				guarded := false
+				if signed {
+					for _, cv := range counts {
+						for _, r := range *cv.Referrers() {
+							if bo, ok := r.(*ssa.BinOp); ok {
+								switch bo.Op {
+								case token.GTR, token.GEQ, token.LSS, token.LEQ:
+									if bo.Block() == h || bo.Block().Dominates(h) {
+										guarded = true
+									}
+								}
+							}
+						}
+					}
+				}
+				c.Oblige("X.countloop.signed", !signed || guarded, at, name, "the count is compared as the unsigned number it is",
+					"a count of 2^63 or more turns negative when converted to int: the entry loop does not run and Skip reports success for a field whose entries are not there", nil)
+			}
 			c.Oblige("X.countloop", okAll, at, name, "the entry loop is bounded by the count read from the data",
 				"a decoded slice, array or map holds exactly the encoded elements: the loop that consumes the entries must run count times (the count itself, or the length of a slice made or re-sliced to it) - bounded by the length of whatever the target already held, a shorter target drops elements and returns too few bytes (the enclosing reader then mis-parses the rest) and a longer one reads past the entries", nil)
 		}
 		if n == 0 {
 			c.Oblige("X.countloop", false, f.Pos(), name, "counted entry loop", "no loop consuming entries under a leading count found: the rule no longer sees the code it was written for", nil)
+		}
+		// X.countloop.consumed: the counted form has no length of its own, the bytes
+		// handed in run on to the end of the enclosing message: a success return
+		// reports what was walked, never len(data) for itself
+		var isLenData func(v ssa.Value, depth int) bool
+		isLenData = func(v ssa.Value, depth int) bool {
+			if depth > 6 {
+				return false
+			}
+			switch x := v.(type) {
+			case *ssa.Convert:
+				return isLenData(x.X, depth+1)
+			case *ssa.Phi:
+				for _, e := range x.Edges {
+					if isLenData(e, depth+1) {
+						return true
+					}
+				}
+			case *ssa.Call:
+				if bi, ok := x.Common().Value.(*ssa.Builtin); ok && bi.Name() == "len" {
+					if prm, ok := x.Common().Args[0].(*ssa.Parameter); ok && isByteSlice(prm.Type()) {
+						return true
+					}
+				}
+			}
+			return false
+		}
+		for _, b := range f.Blocks {
+			ret, ok := b.Instrs[len(b.Instrs)-1].(*ssa.Return)
+			if !ok || len(ret.Results) != 2 || !isNilConst(ret.Results[1]) {
+				continue
+			}
+			// only returns reached after the leading count was read
+			dom := false
+			for _, cv := range counts {
+				cb := cv.(*ssa.Extract).Block()
+				if cb == b || cb.Dominates(b) {
+					dom = true
+				}
+			}
+			if !dom {
+				continue
+			}
+			if isLenData(ret.Results[0], 0) {
+				c.Oblige("X.countloop.consumed", false, ret.Pos(), name, "a success return reports the bytes walked",
+					"count-prefixed data is not delimited: the slice passed in continues with the fields that follow, so returning len(data) swallows them", nil)
+			} else {
+				c.Oblige("X.countloop.consumed", true, ret.Pos(), name, "a success return reports the bytes walked", "the result is the accumulated offset", nil)
+			}
 		}
 	}
 	c.Floor("X.countloop", 7)
